@@ -239,10 +239,50 @@ func checkNeverConsulted(c *Ctx, L *Layout, base *Outcome, events []zsimrt.IOEve
 	for _, e := range events {
 		touched[e.Path] = true
 	}
+	// what the loaded project itself says its enabled services read: label files always, required env files
+	// unless the environment is left unresolved (the lists are emptied when env files are discarded)
+	fromProject := map[string]bool{}
+	ref := base.Project
+	if L.Opts.DiscardEnvFiles && L.Entry != "model" {
+		// the lists are emptied in the result when env files are discarded; the files are read all the same:
+		// take the lists from a load that keeps them
+		L2 := *L
+		L2.Opts.DiscardEnvFiles = false
+		if o := RunLoad(&L2, Materialise(&L2), "", false); o.OK {
+			ref = o.Project
+		} else {
+			ref = nil
+		}
+	}
+	if ref != nil && L.Entry != "model" {
+		abs := func(p string) string {
+			if !strings.HasPrefix(p, "/") {
+				p = path.Join(L.Cwd, p)
+			}
+			return path.Clean(p)
+		}
+		for _, s := range ref.Services {
+			for _, lf := range s.LabelFiles {
+				fromProject[abs(lf)] = true
+			}
+			if !L.Opts.SkipResolveEnvironment {
+				for _, ef := range s.EnvFiles {
+					if ef.Required {
+						fromProject[abs(ef.Path)] = true
+					}
+				}
+			}
+		}
+	}
 	req := append([]string(nil), L.Required...)
+	for p := range fromProject {
+		if _, ok := L.Files[p]; ok {
+			req = append(req, p)
+		}
+	}
 	sort.Strings(req)
 	for i, p := range req {
-		if (i > 0 && req[i-1] == p) || !structurallyInPlay(L, p, 0) {
+		if (i > 0 && req[i-1] == p) || !(fromProject[p] || structurallyInPlay(L, p, 0)) {
 			continue
 		}
 		c.Count("referenced-files-in-play:"+fileClass(p), 1)
@@ -264,12 +304,13 @@ func checkNeverConsulted(c *Ctx, L *Layout, base *Outcome, events []zsimrt.IOEve
 
 // judgeNeverConsulted: one referenced file, in play, made absent from the start; the fault-free load never
 // looked at it and the load without it succeeds all the same.
+// (That the file is in play is established by the caller, checkNeverConsulted, and on replay by c01Exec.)
 func judgeNeverConsulted(L *Layout, base *Outcome, baseEvents []zsimrt.IOEvent, faults []*zsimrt.Fault, out *Outcome) (clause, key, detail string) {
 	if len(faults) != 1 || base == nil || !base.OK || !out.OK {
 		return
 	}
 	f := faults[0]
-	if f.Kind != "enoent" || !f.Sticky || f.AtSeq != 0 || !isRequired(L, f.Path) || !structurallyInPlay(L, f.Path, 0) {
+	if f.Kind != "enoent" || !f.Sticky || f.AtSeq != 0 {
 		return
 	}
 	for _, e := range baseEvents {
